@@ -155,6 +155,11 @@ func genLicense(r *vh.Rng) string {
 	switch {
 	case r.Chance(12):
 		return ""
+	case r.Chance(22):
+		// a license as it comes out of a file / the environment (see license.go): the license field is the
+		// hash of exactly these bytes, whatever "tidying" a route might find natural
+		l, _ := rawLicense(r)
+		return l
 	case r.Chance(30):
 		return r.PickStr([]string{"x4sg22ea3zdt9-z21ehre2sdpz2t-x3ri3p2bmmsd4u", "abcdefg", "hijklmn", "A", "license with spaces"})
 	case r.Chance(30):
